@@ -313,6 +313,28 @@ func (s *State) AnyFact(match func(s *State, x, y ssa.Value, r Rel) bool) bool {
 				if match(s, s.Canon(bo.Y), s.Canon(bo.X), flip(r)) {
 					return true
 				}
+				// str compared with "" is also presented as len(str) compared with 0 (LenOf understands the proxy)
+				for _, pr := range [][2]ssa.Value{{bo.X, bo.Y}, {bo.Y, bo.X}} {
+					str := s.Canon(pr[0])
+					if _, isK := str.(*ssa.Const); isK || !IsStrConst(s.Canon(pr[1]), "") {
+						continue
+					}
+					if bt, isB := str.Type().Underlying().(*types.Basic); !isB || bt.Info()&types.IsString == 0 {
+						continue
+					}
+					rr := s.Rel(pr[0], pr[1])
+					lr := NE
+					if rr == EQ {
+						lr = EQ
+					} else if rr&EQ != 0 {
+						continue
+					}
+					proxy := &LenProxy{Of: str}
+					zero := ssa.NewConst(constant.MakeInt64(0), types.Typ[types.Int])
+					if match(s, proxy, zero, lr) || match(s, zero, proxy, lr) {
+						return true
+					}
+				}
 				// len(str) compared with 0 is also presented as str compared with "" (the two spellings of an emptiness test)
 				for _, pr := range [][2]ssa.Value{{bo.X, bo.Y}, {bo.Y, bo.X}} {
 					lc, isCall := s.Canon(pr[0]).(*ssa.Call)
@@ -343,6 +365,9 @@ func (s *State) AnyFact(match func(s *State, x, y ssa.Value, r Rel) bool) bool {
 
 // LenOf reports whether v is len(x) with x satisfying pred.
 func LenOf(s *State, v ssa.Value, pred func(ssa.Value) bool) bool {
+	if lp, ok := v.(*LenProxy); ok {
+		return pred(s.Canon(lp.Of))
+	}
 	c, ok := s.Canon(v).(*ssa.Call)
 	if !ok || BuiltinName(c) != "len" {
 		return false
@@ -1351,3 +1376,14 @@ func (c *Check) NotUsedAfterRelease(rule, constructPrefix string, fns []*ssa.Fun
 	c.Sites(sites)
 	return sites
 }
+
+// LenProxy stands for len(Of) in fact queries when the source spells the emptiness test of a string as a comparison
+// with "" instead of len(...) == 0. It is never part of the program; only LenOf looks inside.
+type LenProxy struct{ Of ssa.Value }
+
+func (l *LenProxy) Name() string                  { return "len(" + l.Of.Name() + ")" }
+func (l *LenProxy) String() string                { return l.Name() }
+func (l *LenProxy) Type() types.Type              { return types.Typ[types.Int] }
+func (l *LenProxy) Parent() *ssa.Function         { return l.Of.Parent() }
+func (l *LenProxy) Referrers() *[]ssa.Instruction { return nil }
+func (l *LenProxy) Pos() token.Pos                { return l.Of.Pos() }
